@@ -292,6 +292,33 @@ class MethodWalker:
                             self._defs = saved
                             break
                 return
+            # self._helper(args): the helper's own prints / visits happen here, with its parameters bound to the arguments
+            if isinstance(f, ast.Attribute) and isinstance(f.value, ast.Name) and f.value.id == "self" and f.attr not in ("basic09_text", "visit") and depth < 5:
+                rm = self.py.resolve_method(self.cls, f.attr)
+                if rm is not None and rm[1] is not fn and not any(isinstance(a, ast.Starred) for a in e.args):
+                    for a in e.args:
+                        self._scan_expr(a, env, ci, fn, cond, depth)
+                    for k in e.keywords:
+                        self._scan_expr(k.value, env, ci, fn, cond, depth)
+                    callee = rm[1]
+                    params = [a.arg for a in callee.args.args]
+                    static = any(isinstance(d, ast.Name) and d.id == "staticmethod" for d in callee.decorator_list)
+                    env2: Dict[str, Origin] = {}
+                    plist = params if static else params[1:]
+                    for pn, a in zip(plist, e.args):
+                        env2[pn] = self.origin(a, env)
+                    for k in e.keywords:
+                        if k.arg in plist:
+                            env2[k.arg] = self.origin(k.value, env)
+                    saved = self._defs
+                    n_before = len(self.events)
+                    self._walk_method(rm[0], callee, depth + 1, env2)
+                    self._defs = saved
+                    if cond is not None:
+                        for ev in self.events[n_before:]:
+                            if ev.cond is None:
+                                ev.cond = cond
+                    return
             if isinstance(f, ast.Attribute):
                 recv = f.value
                 self._scan_expr(recv, env, ci, fn, cond, depth)
